@@ -143,6 +143,11 @@ def eval_block(block, acc):
         seqs = [()] if first is None else [(first,) + t for t in streams.token_seqs(k - 1, CNAMES)]
         datas = [b"".join(COMPACT[t] for t in s) for s in seqs]
         combos = list(itertools.product(bufs, ends))
+    elif kind == "compact2":
+        _, first, second, k, bufs, ends = block
+        seqs = [(first, second) + t for t in itertools.product(CNAMES, repeat=k - 2)]
+        datas = [b"".join(COMPACT[t] for t in s) for s in seqs]
+        combos = list(itertools.product(bufs, ends))
     else:  # long tokens
         _, i, bufs, ends = block
         datas = [LONG[i]] + [LONG[i] + x for x in LONG] + [LONG[i] + COMPACT[c] for c in CNAMES]
@@ -166,9 +171,12 @@ def run_tier(tier, t0):
         blocks += [("long", i, (3, 4096), ("close",)) for i in range(len(LONG))]
         depth = "2 (all bufsizes/ends), 3 (bufsize 1,3,4096; close,timeout)"
     else:
-        blocks += [("compact", f, 4, BUFSIZES, ENDS) for f in CNAMES]
+        blocks += [("compact", f, 3, BUFSIZES, ENDS) for f in CNAMES]
+        for f in CNAMES:  # depth 4, sharded by the first two tokens
+            for g in CNAMES:
+                blocks.append(("compact2", f, g, 4, (1, 3, 4096), ("close", "timeout")))
         blocks += [("long", i, BUFSIZES, ENDS) for i in range(len(LONG))]
-        depth = "4 (all bufsizes/ends)"
+        depth = "3 (all bufsizes/ends), 4 (bufsize 1,3,4096; close,timeout)"
     acc = engine.sweep(blocks, eval_block)
     engine.finish(
         PROP, tier, acc, t0, replay_case,
